@@ -34,11 +34,14 @@ CLAIMED['C06'] = dict(
          'ByteCodeEncoder::encode at an arbitrary offset and then executed by one step of Vm::execute on those very bytes: '
          'len() == bytes written == bytes consumed, stack_effect() == net stack depth change on every non-error path, jump ops '
          'land exactly on the label offset or the distance overflow is diagnosed, PushHandler registers the label offset and the '
-         'slot depth operand, retried ops restore ip and depth, the line table gets one entry per byte. The induction over the '
-         'lowering functions (linear simulation == every path) and max_slots reservation are not yet machine checked.',
+         'slot depth operand, retried ops restore ip and depth, the line table gets one entry per byte; C06.C1 the real lowering '
+         'functions ternary / if_ / while_ / binary / unary are executed with opaque sub-constructs (induction hypothesis: an '
+         'expression pushes one value, a block nets its locals): the depth is the same on every path into every join, the '
+         'construct has its declared net effect, and the repository\'s own apply_stack_effects, run from MIR on the skeleton, '
+         'computes the real depth at every reachable instruction. Remaining lowering functions and max_slots reservation are not '
+         'yet machine checked.',
     note='Trusted: rustc MIR printer, mirsym, abstract object identities and call summary at resolve_call (vmabs.py), Z3. '
-         'Fiber stack primitives and all ops are executed from MIR. Known design-level findings F4-F6 (handler depth vs '
-         'parameters, nested try exits, ternary double counting) are in the lowering, outside K1.',
+         'Fiber stack primitives and all ops are executed from MIR.',
     ref='§4 C06')
 
 CLAIMED['C04'] = dict(
